@@ -2,14 +2,17 @@ package harness
 
 import (
 	"bytes"
+	"context"
 	"fmt"
 	"sort"
 	"strings"
 	"sync"
 	"testing"
+	"time"
 
 	"github.com/btcsuite/btcd/btcec/v2"
 	"github.com/lightninglabs/lightning-node-connect/mailbox"
+	"github.com/lightningnetwork/lnd/keychain"
 )
 
 type fieldSpan struct {
@@ -319,6 +322,115 @@ func versionRanges() [][4]byte {
 	return l
 }
 
+// grpcEntry runs one handshake through the product's entry points (NoiseGrpcConn.ClientHandshake /
+// ServerHandshake with their version options, which pick the pattern from the ConnData) and reports
+// whether each side completed and how many transport writes the responder made.
+func grpcEntry(cliNG, srvNG *mailbox.NoiseGrpcConn) (cliErr, srvErr error, srvWrites int) {
+	cc, sc := newMemPair()
+	var wg sync.WaitGroup
+	wg.Add(2)
+	go func() {
+		defer wg.Done()
+		_, _, cliErr = cliNG.ClientHandshake(context.Background(), "", cc)
+		if cliErr != nil {
+			cc.Close() // what the callers do: a failed handshake closes the connection
+		}
+	}()
+	go func() {
+		defer wg.Done()
+		_, _, srvErr = srvNG.ServerHandshake(sc)
+		if srvErr != nil {
+			sc.Close()
+		}
+	}()
+	done := make(chan struct{})
+	go func() { wg.Wait(); close(done) }()
+	select {
+	case <-done:
+	case <-time.After(20 * time.Second):
+		// both sides wait for bytes that will never come: end it as the read deadline would
+		cc.Close()
+		sc.Close()
+		<-done
+	}
+	return cliErr, srvErr, len(sc.writeLog)
+}
+
+// grpcEntryCases: the repeat-handshake clause at the level of the credentials objects. One side has
+// stored its peer's static key at an earlier pairing (its ConnData holds a remote key); the other
+// side is either that peer or somebody else who only knows the pairing phrase. For every version cap
+// (0, 1, 2 - the key-based handshake needs 2) and for a Clone() of the credentials: the handshake
+// completes only for the stored peer, and towards anybody else the responder writes nothing.
+func grpcEntryCases(r *Recorder) {
+	pass := []byte("pairing-phrase-entropy")
+	cliKey, srvKey, otherKey := key(5301), key(5302), key(5303)
+	mk := func(priv *btcec.PrivateKey, remote *btcec.PublicKey, auth []byte) *mailbox.ConnData {
+		return mailbox.NewConnData(&keychain.PrivKeyECDH{PrivKey: priv}, remote, pass, auth, nil, nil)
+	}
+	type variant struct {
+		name string
+		opts func() []func(*mailbox.NoiseGrpcConn)
+		cl   bool
+	}
+	variants := []variant{
+		{"max=2", func() []func(*mailbox.NoiseGrpcConn) { return nil }, false},
+		{"max=1", func() []func(*mailbox.NoiseGrpcConn) {
+			return []func(*mailbox.NoiseGrpcConn){mailbox.WithMaxHandshakeVersion(1)}
+		}, false},
+		{"max=0", func() []func(*mailbox.NoiseGrpcConn) {
+			return []func(*mailbox.NoiseGrpcConn){mailbox.WithMaxHandshakeVersion(0)}
+		}, false},
+		{"clone", func() []func(*mailbox.NoiseGrpcConn) { return nil }, true},
+	}
+	build := func(d *mailbox.ConnData, v variant) *mailbox.NoiseGrpcConn {
+		ng := mailbox.NewNoiseGrpcConn(d, v.opts()...)
+		if v.cl {
+			ng = ng.Clone().(*mailbox.NoiseGrpcConn)
+		}
+		return ng
+	}
+	for _, pv := range variants { // the paired side's credentials
+		for _, ov := range variants[:3] { // the other side's
+			for _, legit := range []bool{true, false} {
+				// (a) the responder is the paired side
+				{
+					srv := build(mk(srvKey, cliKey.PubKey(), []byte("macaroon")), pv)
+					var cli *mailbox.NoiseGrpcConn
+					if legit {
+						cli = build(mk(cliKey, srvKey.PubKey(), nil), ov)
+					} else {
+						cli = build(mk(otherKey, nil, nil), ov)
+					}
+					ce, se, w := grpcEntry(cli, srv)
+					name := fmt.Sprintf("grpc-entry:paired-responder:%s:initiator-%s:legit=%v", pv.name, ov.name, legit)
+					if !legit && (se == nil || w != 0) {
+						r.Violate("C03/completed-without-secret", fmt.Sprintf("responder credentials (%s) whose ConnData hold the static key stored at pairing time; the initiator (%s) knows the pairing phrase but has another static key: responder err %v, initiator err %v, responder made %d transport writes",
+							pv.name, ov.name, se, ce, w), name)
+					}
+					r.Case(name, !legit, "grpc-entry")
+				}
+				// (b) the initiator is the paired side
+				{
+					cli := build(mk(cliKey, srvKey.PubKey(), nil), pv)
+					var srv *mailbox.NoiseGrpcConn
+					if legit {
+						srv = build(mk(srvKey, cliKey.PubKey(), []byte("macaroon")), ov)
+					} else {
+						srv = build(mk(otherKey, nil, []byte("macaroon")), ov)
+					}
+					ce, se, _ := grpcEntry(cli, srv)
+					name := fmt.Sprintf("grpc-entry:paired-initiator:%s:responder-%s:legit=%v", pv.name, ov.name, legit)
+					if !legit && ce == nil {
+						r.Violate("C03/completed-without-secret", fmt.Sprintf("initiator credentials (%s) whose ConnData hold the static key stored at pairing time; the responder (%s) knows the pairing phrase but has another static key: initiator err %v, responder err %v",
+							pv.name, ov.name, ce, se), name)
+					}
+					r.Case(name, !legit, "grpc-entry")
+				}
+			}
+		}
+	}
+}
+
 func TestC03(t *testing.T) {
 	r := NewRecorder(t, "C03")
 	defer r.Close(t)
@@ -388,6 +500,7 @@ func TestC03(t *testing.T) {
 			r.Case(fmt.Sprintf("xx-on-paired:%v:%v", same, vr), !same, "xx-on-paired")
 		}
 	}
+	grpcEntryCases(r)
 	// the application keeps its passphrase in one buffer and overwrites it in place between
 	// pairings: only the bytes in the buffer at the time of a handshake count
 	{
